@@ -152,14 +152,16 @@ def codegen_full(prop, tier, t0):
     return names, "", time.time() - t0
 
 
-CHECK_RE = re.compile(r"^Check \d+: (.+)\n\t - Status: (\w+)\n\t - Description: \"(.*)\"\n(?:\t - Location: (.*)\n)?", re.M)
+# the description is usually one line; an assert!/panic! whose message is not a literal (concat!(..), format args) is printed as its
+# token stream over several lines
+CHECK_RE = re.compile(r"^Check \d+: (.+)\n\t - Status: (\w+)\n\t - Description: \"((?:.|\n)*?)\"\n(?:\t - Location: (.*)\n)?(?=\n|Check |\Z)", re.M)
 
 
 def parse_log(res, out, rc):
     res.checks = 0
     for m in CHECK_RE.finditer(out):
         cname, status, desc, loc = m.group(1), m.group(2), m.group(3), m.group(4) or ""
-        desc = desc.strip('"')
+        desc = " ".join(desc.strip('"').split())
         if ".cover." in cname:
             res.covers.append((desc, status))
             continue
